@@ -323,6 +323,15 @@ def run(ctx: Ctx) -> None:
                        msg=f"`{short(d.stmt, 70)}` takes segment [{idx}] where the {'declared name' if var == own_var else 'class name'} of a qualified name is segment [{want}]: with leading scopes ('struct Outer::Inner {{ Inner(); }}', 'A::B::B()') constructors and destructors are no longer recognised",
                        node=d.stmt, mod=mod)
 
+    # ---------------------------------------------------------------- R3.8
+    # "every member of a class body": the member after an inline method body is found only if the body ends where its
+    # braces balance, counted in tokens.  The body skipper's counting loop and the token-accessor discipline are C13's
+    # R13.2 / R13.8, evaluated here under this property's id.
+    from . import c13 as _c13
+    from ..report import run_shared as _run_shared
+    t38 = "an inline member body ends where its braces balance, counted token by token (the skipper's counting loop; no raw-text scan)"
+    _run_shared(ctx, _c13.run, {"R13.2": ("R3.8", t38), "R13.8": ("R3.8", t38)})
+
 
 _TF3: Dict[Tuple[int, str], object] = {}
 
